@@ -1046,9 +1046,12 @@ RULE_C16 = ("cells = tag personality {generic, Standard, Lite, Lite-S (authentic
             "every command position of the fault-free run x {TimeoutError, TransmissionError, ProtocolError} x burst "
             "1..4 x {command lost, response lost}. within budget (burst <= 2): result, final tag memory and the list of "
             "answered commands equal the fault-free run; beyond: Type3TagCommandError with errno of the kind, or "
-            "the result of the fault-free run / documented None/False; any other exception is an escape")
+            "the result of the fault-free run / documented None/False; any other exception is an escape; at every cell "
+            "an operation that returns normally returns the fault-free result or its documented failure value (dump: "
+            "stops at the failing block) and, with the fault-free result, leaves the fault-free memory (format, which "
+            "probes the memory 'until an error': a fresh reader finds the same message and access flags)")
 REQUIRED_C16 = ["t3t_c16_cells", "t3t_c16_within_ok", "t3t_c16_beyond_tagerror", "t3t_c16_sequences_compared", "t3t_c16_repeat_checked",
-                "t3t_c16_ops_covered"]
+                "t3t_c16_ops_covered", "t3t_c16_normal_returns_judged"]
 
 KINDS = {"timeout": (nfc.clf.TimeoutError, nfc.tag.TIMEOUT_ERROR),
          "transmission": (nfc.clf.TransmissionError, nfc.tag.RECEIVE_ERROR),
@@ -1223,6 +1226,8 @@ def c16_execute(kind, opname, fault, variant=0):
             out["exc"] = e
         dev.script = None
     out["image"] = model.image()
+    out["model"] = model
+    out["layout"] = lay
     out["answered"] = [e[1] for e in dev.log[logbase:] if isinstance(e[2], bytes)]
     # an answered write command (response delivered to the reader) directly followed by the identical command; reads
     # may legitimately be repeated back to back (protect() reads block 0 twice), they are covered by the comparison
@@ -1304,10 +1309,89 @@ def _is_mac_write(cmd):
     return len(cmd) > 18 and cmd[1] == 0x08 and cmd[13] == 1 and cmd[14:16] == b"\x80\x88" and cmd[18] != 0xFF
 
 
+def _nviol(R):
+    return sum(v["count"] for v in R.violations.values())
+
+
 def c16_judge(kind, opname, ref, fault, R, variant=0):
+    """one cell: the specific clauses first; a cell that passed them and returned normally is then judged by the
+    always-on clause 'no silently wrong result / memory' (c16_silent)"""
+    got = c16_execute(kind, opname, fault, variant)
+    nv = _nviol(R)
+    c16_judge_clauses(kind, opname, ref, got, fault, R, variant)
+    if _nviol(R) == nv:
+        c16_silent(kind, opname, ref, got, fault, R, variant)
+
+
+def c16_dump_reports_error(got, want):
+    """dump() reads 'until an error': the lines printed so far are lines of the complete dump, followed by at most two
+    closing lines ('*' line and last block of a run of equal blocks).  FeliCa Lite prints blocks it could not read as
+    '??'; FeliCa Standard falls back to the plain dump of the NDEF service when the system / service discovery
+    commands fail (same block lines without the indentation of the area tree)."""
+    if not (isinstance(got, list) and isinstance(want, list)):
+        return False
+    want_set = set(x.strip() for x in want if isinstance(x, str))
+    return sum(1 for x in got if not (isinstance(x, str) and ("?? ??" in x or x.strip() in want_set))) <= 2
+
+
+def c16_fresh_ndef(run):
+    """what a fresh, fault-free reader finds on the tag the run left behind -> None | [message hex, readable, writeable]"""
+    with fixed_challenge(), quiet():
+        try:
+            _clf, _dev, tag = tagdevice.activate(run["model"])
+            nd = None if tag is None else tag.ndef
+            return None if nd is None else [bytes(nd.octets).hex(), nd.is_readable, nd.is_writeable]
+        except Exception as e:      # noqa
+            return ["exc", exc_sig(e)]
+
+
+def c16_silent(kind, opname, ref, got, fault, R, variant=0):
+    """an operation that returns normally returns the fault-free result or its documented failure value; with the
+    fault-free result the final tag memory is the fault-free memory.  format() probes the memory size and the block
+    limits by reading / writing 'until an error', so after a failed probe it may legitimately lay the tag out
+    differently: there 'True' must still mean what it says, a fresh reader finds the same (empty) message and access
+    flags as after the fault-free format."""
+    if "exc" in got or "exc" in ref or got["injected"] == 0:
+        return
     pos, kname, burst, flavour = fault
     op = OPS[opname]
-    got = c16_execute(kind, opname, fault, variant)
+    case = {"family": FAM, "kind": kind, "op": opname, "fault": list(fault), "variant": variant}
+    sigbase = "t3t/c16/%s/" % opname
+    what = "%s on %s, %s x%d (%s) at command %d: " % (opname, kind, kname, burst, flavour, pos)
+    R.count("t3t_c16_normal_returns_judged")
+    res, want = got.get("result"), ref.get("result")
+    if res != want:
+        if res in op["fallbacks"] or (opname == "dump" and c16_dump_reports_error(res, want)):
+            R.count("t3t_c16_normal_return_reports_failure")
+        else:
+            R.violation(sigbase + "silent-wrong-result", what + "returned %r without any error, fault-free result %r" % (
+                str(res)[:70], str(want)[:70]), case)
+        return
+    if res in op["fallbacks"]:
+        R.count("t3t_c16_normal_return_reference_is_failure_value")      # cannot tell failure from success
+        return
+    if got["image"] == ref["image"]:
+        R.count("t3t_c16_normal_return_same_result_same_memory")
+        return
+    if opname.startswith("format") and op["free"]:
+        if "fresh" not in ref:
+            ref["fresh"] = c16_fresh_ndef(ref)
+        fresh = c16_fresh_ndef(got)
+        R.count("t3t_c16_format_result_verified_by_fresh_reader")
+        if fresh != ref["fresh"]:
+            how = "no-ndef" if fresh is None else "other-access-flags" if (
+                isinstance(ref["fresh"], list) and fresh[1:] != ref["fresh"][1:]) else "other-message"
+            R.violation(sigbase + "silent-wrong-memory/fresh-reader-finds-" + how,
+                        what + "returned %r like the fault-free run, but a fresh reader finds %r instead of %r" % (
+                            res, fresh, ref["fresh"]), case)
+        return
+    R.violation(sigbase + "silent-wrong-memory", what + "returned the fault-free result %r but the final tag memory "
+                "differs" % (str(res)[:60],), case)
+
+
+def c16_judge_clauses(kind, opname, ref, got, fault, R, variant=0):
+    pos, kname, burst, flavour = fault
+    op = OPS[opname]
     case = {"family": FAM, "kind": kind, "op": opname, "fault": list(fault), "variant": variant}
     R.case([kind, opname, variant, list(fault)], nontrivial=got["injected"] > 0)
     R.count("t3t_c16_cells")
